@@ -193,7 +193,10 @@ def build(wb: WB, spec: dict):
         p = wb.inp("a", vals)
         e, sz = wb.scatter(p)
         base = wb.workdir
-        o = wb.job({"x": e}, op="inc", name="/fx", dirs=(base + "/fixed-in", base + "/fixed-out", base + "/fixed-tmp"))
+        # spec["fix"]: which of the three directories the binding fixes (default all); the others are generated per job
+        fix = spec.get("fix", "in+out+tmp").split("+")
+        dirs = tuple((base + f"/fixed-{k}") if k in fix else None for k in ("in", "out", "tmp"))
+        o = wb.job({"x": e}, op="inc", name="/fx", dirs=dirs)
         wb.out("o", wb.gather(o, sz))
         return {"o": inc(vals)}
     if k == "multiloc":  # scattered jobs, each allocated to `locs` locations of one deployment with `nlocs` locations
@@ -313,6 +316,7 @@ async def _main(loop, params, res):
     ctx = wfkit.make_context(workdir, failure_manager=fm)
     run = execkit.reset_run(params.get("plan"))
     wb = WB(ctx, workdir, nlocs=params["spec"].get("nlocs", 1), sites=params["spec"].get("sites"))
+    res["spec"] = params["spec"]
     res["expected"] = build(wb, params["spec"])
     wf = await wb.finish()
     res["wf"] = wf
